@@ -211,6 +211,15 @@ def _ragged_out(r, flat, conv=int):
     return [[conv(x) for x in np.asarray(row).ravel()] for row in r]
 
 
+def _read_labels(c):
+    """the k-mers looked up: all of them while there are few, else first, last and an even sample"""
+    alpha, k = c["alpha"], c["k"]
+    n = len(alpha)
+    tot = n ** k
+    hs = range(tot) if tot <= 64 else sorted({0, 1, tot - 1, tot - 2} | set(range(0, tot, max(1, tot // 24))))
+    return ["".join(alpha[(h // n ** j) % n] for j in range(k)) for h in hs]
+
+
 def _call(c):
     """run the real function; return (live result object, canon_fn) -- canon_fn re-reads the live object"""
     from bionumpy.sequence import get_kmers, get_minimizers, match_string, get_motif_scores, count_kmers
@@ -319,6 +328,31 @@ def _call(c):
                 return {"counts": [int(x) for x in cnt], "labels": lab}
             return {"counts": [[int(x) for x in row] for row in cnt.reshape(nrows, -1)], "labels": lab}
         return r, canon_count
+    if op == "count_read":
+        # the two-step use of the result: count, THEN read it the way callers do -- look a k-mer up by its label
+        # (result[label]), as_dict(); for per-sequence counting (axis=-1) every answer is one number PER SEQUENCE
+        r = count_kmers(_input(c), c["k"], axis=c["axis"])
+        nrows = len(c["rows"])
+        labs = _read_labels(c)
+
+        def val(v):
+            a = np.asarray(v)
+            if c["axis"] is None:
+                return int(a) if a.ndim == 0 else {"shape": list(a.shape)}
+            return [int(x) for x in a] if a.shape == (nrows,) else {"shape": list(a.shape)}
+
+        def canon_read(o):
+            out = {"by_label": {}, "as_dict": {}}
+            d = o.as_dict()
+            for lab in labs:
+                try:
+                    out["by_label"][lab] = val(o[lab])
+                except Exception as e:
+                    out["by_label"][lab] = "raises:" + type(e).__name__
+                out["as_dict"][lab] = val(d[lab]) if lab in d else "missing"
+            out["n_labels"] = len(d)
+            return out
+        return r, canon_read
     if op == "count_big":
         # long inputs described compactly: row j = its unit repeated and cut to lens[j]
         from bionumpy.encoded_array import EncodedArray, EncodedRaggedArray
@@ -528,12 +562,12 @@ def oracle(c):
     rows = c["rows"]
     total = sum(len(r) for r in rows)
     w = {"kmers": c.get("k"), "minimizers": c.get("w"), "match": len(c.get("pat", [])), "match_same": len(c.get("pat", [])),
-         "pwm": len(c.get("matrix", [])), "pwm_old": len(c.get("matrix", [])), "count": c.get("k")}[op]
+         "pwm": len(c.get("matrix", [])), "pwm_old": len(c.get("matrix", [])), "count": c.get("k"), "count_read": c.get("k")}[op]
     if w < 1 or total < w:
         return SKIP
     if op == "match_same":   # one value per position: the windows that fit in the row, then False
         return {"rows": [[x == c["pat"] for x in _wins(r, w)] + [False] * (len(r) - max(0, len(r) - w + 1)) for r in rows]}
-    if op in ("kmers", "minimizers", "count") and not (1 <= c["k"] <= 31):
+    if op in ("kmers", "minimizers", "count", "count_read") and not (1 <= c["k"] <= 31):
         return SKIP
     if op == "kmers" and c.get("via") == "ascii" and alpha == "ACGTN":
         # plain text goes through DNAEncoding: anything but ACGT must be refused with an EncodingError
@@ -567,6 +601,11 @@ def oracle(c):
                 o.append(_bits(s))
             out.append(o)
         return {"rows": out}
+    if op == "count_read":
+        base = oracle(dict(c, op="count"))
+        if isinstance(base, core.Skip):
+            return SKIP
+        return _read_expect(c, base)
     if op == "count":
         k = c["k"]
         if n ** k > 20000 or k > 8:   # count_kmers builds all |A|^k labels and asserts k <= 8
@@ -582,6 +621,18 @@ def oracle(c):
             return {"counts": [sum(col) for col in zip(*per)], "labels": labels}
         return {"counts": per, "labels": labels}
     raise ValueError(op)
+
+
+def _read_expect(c, base):
+    """what the reading protocol must answer, given counts/labels as {"counts", "labels"}"""
+    col = {lab: j for j, lab in enumerate(base["labels"])}
+    out = {}
+    for lab in _read_labels(c):
+        if lab not in col:
+            return None
+        j = col[lab]
+        out[lab] = base["counts"][j] if c["axis"] is None else [row[j] for row in base["counts"]]
+    return {"by_label": out, "as_dict": dict(out), "n_labels": len(base["labels"])}
 
 
 def _log(x):
@@ -632,12 +683,16 @@ def agree(c, got, exp):
 
 
 def agree_spec(c, sp, exp):
+    if c["op"] == "count_read":
+        return isinstance(sp, dict) and "counts" in sp and core.canon(_read_expect(c, sp)) == core.canon(exp)
     if c["op"] == "count_add":
         return sp.get("counts") == exp.get("counts")
     return core.canon(sp) == core.canon(exp)
 
 
 def agree_model(c, got, m):
+    if c["op"] == "count_read":
+        return isinstance(m, dict) and "counts" in m and core.canon(got) == core.canon(_read_expect(c, m))
     if c["op"] == "count_add":
         return isinstance(got, dict) and got.get("counts") == m.get("counts")
     if c["op"] in ("pwm", "pwm_old"):
@@ -655,6 +710,9 @@ def model_request(c):
         return None      # text input with a foreign letter: the refusal is C06's model; judged against the oracle here
     if op in ("kmers", "minimizers", "count", "kenc") and n ** k > 2 ** 63:
         return None
+    if op == "count_read":
+        c = dict(c, op="count")
+        op = "count"
     if op == "kenc" and not c["kmers"]:
         return None      # outside the model's stated int64 range: implementation vs exact oracle only
     if op == "pwm" and c.get("seq_alpha", c["alpha"])[:n] != c["alpha"]:
@@ -748,6 +806,7 @@ def _ops_for(rng, alpha, rows, w, big, shape="ragged"):
         if n ** w <= 4096 and w <= 8 and shape != "flat":
             yield dict(base, op="count", k=w, axis=None)
             yield dict(base, op="count", k=w, axis=-1)
+            yield dict(base, op="count_read", k=w, axis=rng.choice([None, -1, -1]))
         for k in sorted({1, max(1, w - 1), w, rng.randint(1, w)}):
             if k <= w:
                 yield dict(base, op="minimizers", k=k, w=w)
@@ -1116,7 +1175,7 @@ def _w(c):
     if c["op"] in ("count_add", "count_big", "count_weighted"):
         return c["k"]
     return {"kmers": c.get("k"), "minimizers": c.get("w"), "match": len(c.get("pat", [])), "match_same": len(c.get("pat", [])),
-            "pwm_old": len(c.get("matrix", [])), "pwm": len(c.get("matrix", [])), "count": c.get("k"), "kenc": c.get("k")}[c["op"]]
+            "pwm_old": len(c.get("matrix", [])), "pwm": len(c.get("matrix", [])), "count": c.get("k"), "count_read": c.get("k"), "kenc": c.get("k")}[c["op"]]
 
 
 def nontrivial(c):
@@ -1152,6 +1211,8 @@ def finding_key(c, got, exp):
         return f"count:long-input:{'multiple-of' if tot % 1000000 == 0 else 'near'}-1e6-kmers" if tot >= 999000 else "count:many-rows-or-codes"
     if op == "count_weighted":
         return "count_encoded:weights"
+    if op == "count_read":
+        return "count:read-by-label:" + ("per-sequence" if c["axis"] is not None else "totals")
     if op in ("seq", "fresh"):
         g = got.get("results") if isinstance(got, dict) else None
         if isinstance(g, list) and len(g) == len(c["calls"]):
